@@ -146,6 +146,7 @@ fn create_tx(hist: &mut Hist, coin: &str, keys: &[Vec<u8>], n_out: usize, rng: &
         inputs: ins,
         outputs,
         locktime: 0,
+        cs_width: 0,
     }
 }
 
@@ -164,6 +165,7 @@ fn finish(prop: &str, family: &str, coin: &str, hist: Hist, rng: &mut Rng) -> Sc
                     script: Bytes(op_return(b"empty")),
                 }],
                 locktime: 0,
+                cs_width: 0,
             });
         }
         scn.chain.push(BlockDesc {
